@@ -23,6 +23,7 @@ class DbScenario:
         self.executed: List[Tuple[str, V, Tuple[V, ...], bool]] = []  # (method, sql, params, inside `with conn`)
         self.with_depth = 0
         self.fail_write: Optional[str] = None  # exception class name raised by the next execute*/executemany
+        self.rows: Optional[V] = None  # concrete result of fetchall() when set
         self.batch: Optional[V] = None  # concrete result of serialize_traces (a tuple of row objects) when set
         inline = {f.fq for f in repo.module(DB).functions.values()}
         self.ri = RepoInterp(repo, self.fi, inline=inline, call_hook=self.call_hook, may_fork=(), heap=True)
@@ -85,7 +86,11 @@ class DbScenario:
         if meth in ("commit", "rollback") and conn_like:
             st.effects.append((meth,))
             return K(None)
+        if meth == "fetchall" and isinstance(fval, R) and fval.kind == "cursor" and self.rows is not None:
+            st.effects.append(("fetch", meth))
+            return self.rows
         if meth in ("fetchall", "fetchmany", "fetchone") and isinstance(fval, R) and fval.kind == "cursor":
+            st.effects.append(("fetch", meth))
             return R("rows", how=K(meth), args=K(tuple(args)))
         if d.endswith("datetime.now") or d.endswith("datetime.utcnow") or d in ("time.time",):
             return R("timestamp", how=K(d))
